@@ -92,7 +92,7 @@ def plan(tier, seed):
                 rule=('group multisets over letters %s (A=ASP acid, B=LYS base, Y=TYR, H=HIS) of size <= %d incl. the empty '
                       'set; predicted pKa of every group from {-3,0,3.8,6.5,7,10.5,14,17} (sorted within equal letters); '
                       'grids %s; pI windows %s x precisions %s; one .pka file written and parsed per assignment. '
-                      'non-trivial = distinct (multiset, assignment) with at least one group') % (
+                      'real inputs (windows, ligand and ion sites, multi-conformation layouts, nucleotides with custom model pKa, parameter-file variants) through the same oracle per conformation and for the average. non-trivial = distinct (multiset, assignment) with at least one group') % (
                           'AB' if tier == 'quick' else 'ABYH', 3 if tier == 'quick' else 4, GRIDS, PI_WINDOWS, PRECISIONS),
                 bounds=dict(max_groups=3 if tier == 'quick' else 4, lattice=list(pf.PKA_LATTICE)),
                 samples=[dict(sig='AB', pkas=[3.8, 10.5], grid=[0, 14, 1])])
